@@ -201,7 +201,30 @@ def to_model_input(sp: Spies):
     ids: dict[int, int] = {}
     nodes_by_id: dict[int, object] = {}
     notes: list[str] = []
-    func_roots = {id(r["graph"]): r for r in list(getattr(sp, "earlier_roots", [])) + sp.roots[1:]}
+    # Graph copies made by with_name/with_opset share the `_results` dict of the graph they come from:
+    # that identifies the compile records of a function graph (compiled by Function.opset_req, and again
+    # by to_onnx_function) and tells them from the record of the graph build() was called on.
+    def gkey(g):
+        return id(getattr(g, "_results", g))
+
+    all_roots = list(getattr(sp, "earlier_roots", [])) + list(sp.roots)
+    func_keys = set()
+
+    def scan(rec):
+        if rec.get("result") is not None:
+            for node in rec["result"].nodes:
+                if isinstance(node, Function):
+                    func_keys.add(gkey(node.func_graph))
+        for c in rec["children"]:
+            scan(c)
+
+    for r in all_roots:
+        scan(r)
+    func_roots: dict = {}
+    for r in all_roots:
+        if gkey(r["graph"]) in func_keys and r.get("result") is not None:
+            func_roots.setdefault(gkey(r["graph"]), r)
+    main_roots = [r for r in sp.roots if gkey(r["graph"]) not in func_keys]
 
     def nid(node):
         if id(node) not in ids:
@@ -229,7 +252,7 @@ def to_model_input(sp: Spies):
                 j.update(k="inline", imports=[[i.domain, i.version] for i in node.model.opset_import],
                          hd=any(p.domain in ("", "ai.onnx") for p in protos))
             elif isinstance(node, Function):
-                fr = func_roots.get(id(node.func_graph))
+                fr = func_roots.get(gkey(node.func_graph))
                 if fr is None:
                     notes.append("function graph compile not observed")
                 j.update(k="func", d=node.op_type.domain, v=node.op_type.version,
@@ -253,9 +276,9 @@ def to_model_input(sp: Spies):
             notes.append(f"{n_intro} _Introduce nodes in one compiled graph")
         return {"nodes": out}
 
-    if not sp.roots:
-        return None, nodes_by_id, ["no compile observed"]
-    return graph(sp.roots[0]), nodes_by_id, notes
+    if len(main_roots) != 1:
+        return None, nodes_by_id, [f"{len(main_roots)} compile records for the main graph"]
+    return graph(main_roots[0]), nodes_by_id, notes
 
 
 MODEL_CLASS = {
@@ -334,7 +357,7 @@ def extract_real(obs):
         real["mismatches"].append(("not observable", u))
     if sp.unobservable:
         return real
-    if sp.roots and sp.roots[0]["result"] is None:
+    if any(r["result"] is None for r in sp.roots):
         return real  # the build stopped inside compile_graph: no complete structure to give to the model
     req, nodes_by_id, notes = to_model_input(sp)
     for n in notes:
@@ -343,9 +366,14 @@ def extract_real(obs):
         return real
     real["request"] = req
     ids = {id(n): i for i, n in nodes_by_id.items()}
-    for rec in sp.abe:
+    # a function graph is compiled twice (for its requirements, then by to_onnx_function with the model's
+    # opsets): what is emitted comes from the last adaptation of a node
+    last = {}
+    for k, rec in enumerate(sp.abe):
+        last[id(rec["node"])] = k
+    for k, rec in enumerate(sp.abe):
         node = rec["node"]
-        if isinstance(node, _Introduce):
+        if isinstance(node, _Introduce) or last[id(node)] != k:
             continue
         cls, st = real_class(rec, sp)
         item = {"id": ids.get(id(node)), "op": f"{node.op_type.identifier}@{node.op_type.version}",
@@ -766,7 +794,6 @@ def gen_programs(ck):
                 outs2.append(nid)
             p2["prebuild_outs"] = list(p2["outs"])
             p2["outs"] = outs2
-            L.pin_bodies(p2)
             L.align_unknown_rank(p2)
             progs.append(("history", p2))
     return progs
